@@ -73,7 +73,7 @@ Archetype& EntityManager::getArchetype(const ComponentIdMask& mask, const Shared
         }
         auto chunk_size = archetype_chunk_size_info_.default_size;
 
-        if (max < min) {
+        if (max > 0 && max < min) { // max == 0 means "no maximum", as in the clamping below
             throw std::runtime_error("Can not create archetype: "
                                      + std::to_string(max) + " < " + std::to_string(min));
         }
